@@ -24,6 +24,8 @@ func main() {
 		genChain(r, "ts")
 	case "C19":
 		genC19(r)
+	case "JWSREAD":
+		genJwsRead(r, "JWSREAD")
 	case "C04":
 		genC04(r)
 	case "C05":
